@@ -140,6 +140,20 @@ FIXED = [
      [M('a', 'Bits', '10000000', 'bitarray_le'), {'op': 'tobytes', 't': 'a', 'sa': ['tobytes']},
       M('b', 'BitArray', '1000000011', 'bitarray_le_kw'), {'op': 'append', 't': 'b', 'xs': [L('1')]}, {'op': 'tobytes', 't': 'b', 'sa': ['tobytes']},
       {'op': 'add', 't': 'a', 'xs': [L('0001', 'bitarray_le')]}]),
+    ('F-bytesio-window-lsb0', 'C17', 'e1a4cfc', "in lsb0 mode Bits(io.BytesIO(b), offset=13, length=3) held bits from the wrong end of the covered bytes",
+     [setopt('lsb0', 1), {'op': 'mkwin', 'rid': 'a', 'sa': ['Bits', 'bytesio'], 'ia': [13, 3, N], 'xs': [L('1110001011100011')]},
+      {'op': 'mkwin', 'rid': 'b', 'sa': ['BitStream', 'bytesio'], 'ia': [1, 4, N], 'xs': [L('0110000011111111')]}]),
+    ('F-tofile-lsb0-chunks', 'C17', 'bfb4c9b', "in lsb0 mode tofile wrote the chunks of data longer than one chunk in reverse order",
+     [setopt('lsb0', 1), M('a', 'Bits', '0000000100000010000000110000010000000101'), {'op': 'tofile', 't': 'a', 'sa': ['bytesio'], 'ia': [16]},
+      {'op': 'tofile', 't': 'a', 'sa': ['path'], 'ia': [8]}]),
+    ('F-array-zero-width', 'C20', '0a64d9c', "Array('uint0') was created and len() / append() then raised ZeroDivisionError; a refused a.dtype = ... still replaced the dtype",
+     [{'op': 'anew', 'rid': 'a', 'sa': ['uint', 'list'], 'ia': [0, 0], 'va': []},
+      {'op': 'anew', 'rid': 'b', 'sa': ['uint', 'list'], 'ia': [8, 0], 'va': [enc_int(1), enc_int(2)]},
+      {'op': 'asetdtype', 't': 'b', 'sa': ['bin'], 'ia': [0]}, {'op': 'alen', 't': 'b'}, {'op': 'atolist', 't': 'b'}]),
+    ('F-array-pp-zero-width', 'C20', 'bbe7558', "Array.pp('hex:0') raised ZeroDivisionError",
+     [{'op': 'anew', 'rid': 'a', 'sa': ['int', 'list'], 'ia': [8, 0], 'va': [enc_int(1)]},
+      {'op': 'rawcall', 't': 'a', 'sa': ['method', 'pp'], 'raw': [['s', 'hex:0'], ['i', 100]]},
+      {'op': 'rawcall', 't': 'a', 'sa': ['method', 'pp'], 'raw': [['s', 'bin0'], ['i', 100]]}]),
 ]
 
 KNOWN = [
